@@ -15,7 +15,7 @@ PROCS = ("gaussian", "poisson", "excitation", "minimize")
 # comparison tolerance per procedure (capture units) with the high-accuracy pass-through: the Poisson likelihood is flat near
 # its optimum (prediction error ~ sqrt(objective gap)), the excitation model is a bisection with SCS
 # (a gap of 1e-8 at captures of ~30 allows a prediction error of sqrt(2*30*1e-8) ~ 8e-4)
-TOLS = {"gaussian": 1e-5, "poisson": 5e-3, "minimize": 1e-5, "excitation": 2e-2}
+TOLS = {"gaussian": 1e-4, "poisson": 5e-3, "minimize": 1e-4, "excitation": 2e-2}
 
 FIXED = {
     "exact": dict(A=[[5.6, 1.4, 0.7], [1.4, 4.9, 1.4], [0.7, 2.1, 6.3]], lb=None, ub=[1.0, 2.0, 1.5]),
